@@ -435,7 +435,7 @@ Section DirectL2.
   Lemma addr_defined_allocating p a : addr H a -> defines (h_func H) p = Some a -> allocating H p = true.
   Proof.
     intros Ha Hd. unfold allocating. rewrite Hd. apply defines_spec in Hd. destruct Hd as (i & Ei & Hd).
-    eapply HA; eauto.
+    destruct (HA a Ha) as [_ Hall]. eapply Hall; eauto.
   Qed.
 
   Lemma hwithin_step orc hist p s : hwithin p s -> hwithin p (hexec_instr H orc hist p s).
@@ -553,13 +553,43 @@ Proof.
   - apply PositiveMap.elements_correct in El. apply in_map_iff. exists (p, a). auto.
 Qed.
 
-Lemma check_addr_alloc_sound H : check_addr_alloc H = true -> addr_alloc H.
+Lemma addr_regs_complete H a : In a (addr_regs H) -> addr H a.
 Proof.
-  unfold check_addr_alloc, addr_alloc. intros Hc a Ha p i Ei Hd.
-  rewrite forallb_forall in Hc. specialize (Hc a (addr_regs_spec H a Ha)).
-  rewrite forallb_forall in Hc. apply PositiveMap.elements_correct in Ei. specialize (Hc _ Ei). cbn [fst snd] in Hc.
-  rewrite Hd, Pos.eqb_refl in Hc. exact Hc.
+  unfold addr_regs. intros Hin. apply in_app_or in Hin. destruct Hin as [Hin|Hin]; apply in_map_iff in Hin.
+  - destruct Hin as ([p [a' x]] & E & Hin). simpl in E. subst a'. apply PositiveMap.elements_complete in Hin.
+    left. exists p, x. exact Hin.
+  - destruct Hin as ([p a'] & E & Hin). simpl in E. subst a'. apply PositiveMap.elements_complete in Hin.
+    right. exists p. exact Hin.
 Qed.
+
+Lemma defines_reg_spec a pi : defines_reg a pi = true <-> i_def (snd pi) = Some a.
+Proof.
+  unfold defines_reg. destruct (i_def (snd pi)) as [r|].
+  - rewrite Pos.eqb_eq. split; congruence.
+  - split; discriminate.
+Qed.
+
+(* the boolean decides the fragment condition *)
+Lemma check_addr_alloc_ok H : check_addr_alloc H = true <-> addr_alloc H.
+Proof.
+  unfold check_addr_alloc, addr_alloc. rewrite forallb_forall. split.
+  - intros Hc a Ha. specialize (Hc a (addr_regs_spec H a Ha)). apply andb_true_iff in Hc. destruct Hc as [Hex Hall].
+    split.
+    + apply existsb_exists in Hex. destruct Hex as ([p i] & Hin & Hd). apply defines_reg_spec in Hd.
+      apply PositiveMap.elements_complete in Hin. exists p, i. auto.
+    + intros p i Ei Hd. rewrite forallb_forall in Hall. apply PositiveMap.elements_correct in Ei.
+      specialize (Hall _ Ei). assert (E : defines_reg a (p, i) = true) by (apply defines_reg_spec; exact Hd).
+      rewrite E in Hall. exact Hall.
+  - intros HA a Hin. destruct (HA a (addr_regs_complete H a Hin)) as [(p & i & Ei & Hd) Hall].
+    apply andb_true_iff. split.
+    + apply existsb_exists. exists (p, i). split; [apply PositiveMap.elements_correct; exact Ei|].
+      apply defines_reg_spec. exact Hd.
+    + apply forallb_forall. intros [q j] Hq. destruct (defines_reg a (q, j)) eqn:E; [|reflexivity].
+      apply defines_reg_spec in E. apply PositiveMap.elements_complete in Hq. eapply Hall; eauto.
+Qed.
+
+Lemma check_addr_alloc_sound H : check_addr_alloc H = true -> addr_alloc H.
+Proof. apply check_addr_alloc_ok. Qed.
 
 Theorem intra_sound_L2_noalias_partial_tcert H (l : list fact) orc fuel entry c v m u :
   check_closed (h_func H) l = true -> check_store_closed H l = true -> check_loads_ok H = true ->
